@@ -117,12 +117,14 @@ def gen_history(rng, length):
     last = [rng.choice(["a2", "v2", "a3", "v1"]) for _ in range(2)]
     pl2 = None if auto else rng.choice([16384, 32768])
     hist += [
-        {"op": "create", "kind": last[0], "path": "p", "out": f"e{counter}a.torrent", "pl": pl2},
+        {"op": "create", "kind": last[0], "path": "p", "out": f"e{counter}a.torrent", "pl": pl2,
+         "reuse": f"E{counter}"},
         {"op": "recheck", "meta": f"e{counter}a.torrent", "content": "p", "reuse": True},
         {"op": "rebuild", "metas": [f"e{counter}a.torrent"], "contents": ["p"], "dest": f"edest{counter}a"},
         {"op": "fs", "kind": "rewrite-same-size", "rel": sorted(present)[0], "seed": counter + 77},
         {"op": "recheck", "meta": f"e{counter}a.torrent", "content": "p", "reuse": True},
-        {"op": "create", "kind": last[0], "path": "p", "out": f"e{counter}b.torrent", "pl": pl2},
+        {"op": "create", "kind": last[0], "path": "p", "out": f"e{counter}b.torrent", "pl": pl2,
+         "reuse": f"E{counter}"},
         {"op": "rebuild", "metas": [f"e{counter}b.torrent"], "contents": ["p"], "dest": f"edest{counter}b"},
         {"op": "recheck", "meta": f"e{counter}b.torrent", "content": f"edest{counter}b"},
         {"op": "edit", "cli": True, "flags": [], "meta": f"e{counter}a.torrent",
@@ -150,6 +152,7 @@ def run_history(seed, length):
     rng = random.Random(seed)
     hist = gen_history(rng, length)
     ops.CHECKERS.clear()     # a caller's long-lived Checker objects belong to one history
+    ops.CREATORS.clear()
     mutated_between = False
     seen_create = False
     with sandbox("c09") as box:
